@@ -686,6 +686,78 @@ def run_jit_helper(ctx, i, rng):
                 lambda: dict(case=desc, call=rep, got=np.asarray(got).tolist(), want=np.asarray(want).tolist()))
 
 
+def run_jit_kwargs(ctx, i, rng):
+  """nn.jit keyword arguments that refer to argument POSITIONS (static_argnums, donate_argnums, both): the lifted block computes what
+  the plain block computes and only the arguments the caller named are donated - an input that the caller reuses after the call is
+  still alive."""
+  import warnings
+  import jax
+  import jax.numpy as jnp
+  import flax.linen as nn
+  from flax.core import unfreeze
+  variant = ['static', 'donate', 'static_donate', 'static_donate_int', 'two_static_donate', 'none'][i % 6]
+  d = rng.randint(2, 4)
+  desc = dict(variant=variant, d=d)
+  with ctx.case('jit_kwargs', i, desc, nontrivial=True):
+    class Block(nn.Module):
+      @nn.compact
+      def __call__(self, mode, x, flag, h):
+        y = nn.Dense(x.shape[-1])(x)
+        y = jnp.tanh(y) if mode == 'tanh' else nn.relu(y)
+        if flag:
+          y = y * 2.0
+        calls = self.variable('state', 'calls', lambda: jnp.zeros((), jnp.int32))
+        calls.value = calls.value + 1
+        return y + h
+
+    # positions: 0 self, 1 mode (static), 2 x (reused by the caller), 3 flag (static), 4 h (temporary, may be donated)
+    kw = {'static': dict(static_argnums=(1, 3)), 'donate': None, 'static_donate': dict(static_argnums=(1, 3), donate_argnums=(4,)),
+          'static_donate_int': dict(static_argnums=(3, 1), donate_argnums=4), 'two_static_donate': dict(static_argnums=(1, 3), donate_argnums=(4,)),
+          'none': dict(static_argnums=(1, 3))}[variant]
+
+    class Block2(nn.Module):   # no static arguments: donate by position only
+      @nn.compact
+      def __call__(self, x, h):
+        y = jnp.tanh(nn.Dense(x.shape[-1])(x))
+        calls = self.variable('state', 'calls', lambda: jnp.zeros((), jnp.int32))
+        calls.value = calls.value + 1
+        return y + h
+
+    def net(lifted):
+      if variant == 'donate':
+        cls = nn.jit(Block2, donate_argnums=(2,)) if lifted else Block2
+      else:
+        cls = nn.jit(Block, **kw) if lifted else Block
+
+      class Net(nn.Module):
+        @nn.compact
+        def __call__(self, x, h0):
+          h = h0 * 2.0                       # a temporary that nobody needs after the block: safe to donate
+          blk = cls(name='blk')
+          y = blk(x, h) if variant == 'donate' else blk('tanh', x, True, h)
+          return y * x + jnp.sum(x)          # the block's input is used again after the block
+      return Net()
+
+    x = jnp.asarray(np.random.default_rng(i).uniform(-1, 1, (2, d)).astype(np.float32))
+    h0 = jnp.asarray(np.random.default_rng(i + 1).uniform(-1, 1, (2, d)).astype(np.float32))
+    plain, lifted = net(False), net(True)
+    with warnings.catch_warnings():
+      warnings.simplefilter('ignore')   # "Some donated buffers were not usable" on CPU
+      try:
+        v = unfreeze(plain.init(jax.random.key(i), x, h0))
+        vl = unfreeze(lifted.init(jax.random.key(i), x, h0))
+        want = plain.apply(v, x, h0, mutable=['state'])
+        got = lifted.apply(v, x, h0, mutable=['state'])
+        got2 = lifted.apply(v, x, h0, mutable=['state'])
+      except RuntimeError as e:
+        ctx.check(False, 'jit_kwargs:argument_not_named_was_donated', dict(case=desc, error=repr(e)[:300]))
+        return
+    ctx.op('nn.jit(%s)' % variant)
+    ctx.check(shapes(vl) == shapes(v), 'init:tree_structure:jit_kwargs', lambda: dict(case=desc))
+    ctx.check(close(got, want) and close(got2, want), 'apply:output:jit_kwargs', lambda: dict(case=desc))
+    ctx.check(bool(np.isfinite(np.asarray(x)).all()) and not x.is_deleted() and not h0.is_deleted(), 'jit_kwargs:caller_input_deleted', lambda: dict(case=desc))
+
+
 def run_bad_write(ctx, i, rng):
   import jax
   from flax import errors
@@ -721,6 +793,8 @@ def run(ctx):
     run_rng(ctx, i, ctx.rng('rng', i))
   for i in ctx.indices(30 if ctx.tier == 'quick' else 300, 'history'):
     run_history(ctx, i, ctx.rng('history', i))
+  for i in ctx.indices(18 if ctx.tier == 'quick' else 72, 'jit_kwargs'):
+    run_jit_kwargs(ctx, i, ctx.rng('jit_kwargs', i))
   for i in ctx.indices(24 if ctx.tier == 'quick' else 96, 'jit_helper'):
     run_jit_helper(ctx, i, ctx.rng('jit_helper', i))
   for i in ctx.indices(48 if ctx.tier == 'quick' else 400, 'attr_children'):
